@@ -56,7 +56,10 @@ def argmax(
     """
     a = numpoly.aspolynomial(a)
     options = numpoly.get_options()
+    # The proxy ranks tied elements in order of appearance. Rank the mirrored
+    # array instead, so that among equal maxima the first one ranks highest.
+    mirror = (slice(None, None, -1),) * a.ndim
     proxy = numpoly.sortable_proxy(
-        a, graded=options["sort_graded"], reverse=options["sort_reverse"]
-    )
+        a[mirror], graded=options["sort_graded"], reverse=options["sort_reverse"]
+    )[mirror]
     return numpy.argmax(proxy, axis=axis, out=out)
